@@ -86,7 +86,7 @@ Lemma Forall_zset {A} (P:A -> Prop) l i v : Forall P l -> P v -> Forall P (zset 
 Proof. apply Forall_set_nth. Qed.
 
 Lemma nok_get_dev c n i : nok c n -> vi n i -> dev_ok c (get_dev n i).
-Proof. intros [_ _ HF _] H. apply Forall_znth; assumption. Qed.
+Proof. intros [_ _ HF _] H. unfold get_dev. apply Forall_znth; assumption. Qed.
 Lemma nok_upd_dev c n i d : nok c n -> dev_ok c d -> nok c (upd_dev n i d).
 Proof.
   intros [H1 H2 H3 H4] Hd. constructor; cbn [upd_dev n_w64 n_now n_devs]; try assumption.
@@ -121,6 +121,203 @@ Proof.
   destruct (sched_is_enabled true (d_claim_timer (get_dev n i))); [|split; [reflexivity|constructor; try split; assumption]].
   destruct (sched_is_time true (n_now n) (d_claim_timer (get_dev n i))); [|split; [reflexivity|constructor; try split; assumption]].
   cbn [fst snd]. split.
-  - rewrite <- upd_dev_sh. f_equal. f_equal. devrec.
-  - apply nok_upd_dev; [constructor; try split; assumption|]. unfold dev_ok. cbn. rewrite dis64. repeat split; try assumption; try apply tbc_dis; lia.
+  - rewrite <- upd_dev_sh; repeat (f_equal; try reflexivity); devrec.
+  - apply nok_upd_dev; [constructor; try split; assumption|]. unfold dev_ok. cbn [d_claim_timer d_next_dt_time d_src]. rewrite dis64. repeat split; try assumption; try apply tbc_dis; lia.
+Qed.
+
+Definition lift2 {X} (c:Z) (p:node * X) : node * X := (shift_node c (fst p), snd p).
+Definition lift3 {X Y} (c:Z) (p:node * X * Y) : node * X * Y := (shift_node c (fst (fst p)), snd (fst p), snd p).
+
+
+(* ---------- GetSequenceCounter ---------- *)
+Lemma fp_tx_count_sh c n d : fp_tx_count (shift_node c n) (shift_dev c d) = fp_tx_count n d.
+Proof. reflexivity. Qed.
+Lemma gsc_sh c n i p : 0 <= c -> nok c n -> vi n i ->
+  get_sequence_counter (shift_node c n) i p = lift2 c (get_sequence_counter n i p) /\ nok c (fst (get_sequence_counter n i p)).
+Proof.
+  intros Hc Hk Hv. pose proof (nok_get_dev c n i Hk Hv) as (T1 & T2 & T3).
+  unfold get_sequence_counter, lift2. rewrite get_dev_sh by exact Hv. rewrite fp_tx_count_sh.
+  cbn [shift_dev d_cells d_src d_name d_claim_end d_claim_timer d_tx d_tp_msg d_next_dt_time d_next_dt_seq d_has_pending].
+  destruct (match seq_scan _ p with Some r => r | None => _ end) as [cells' sc]. cbn [fst snd]. split.
+  - rewrite <- upd_dev_sh; repeat (f_equal; try reflexivity).
+  - apply nok_upd_dev; [exact Hk|]. unfold dev_ok. cbn [d_claim_timer d_next_dt_time d_src]. repeat split; assumption || lia.
+Qed.
+
+(* ---------- the gate ---------- *)
+Lemma send_gate_sh c n m idev : 0 <= c -> nok c n ->
+  send_gate (shift_node c n) m idev = lift2 c (send_gate n m idev) /\ nok c (fst (send_gate n m idev)).
+Proof.
+  intros Hc Hk. unfold send_gate, lift2. rewrite shn_open, shn_count, shn_mode.
+  destruct (negb (n_open n =? 3)); [split; [reflexivity|exact Hk]|].
+  destruct (idev >=? dev_count n) eqn:Hr; [split; [reflexivity|exact Hk]|].
+  assert (Hv: vi n (if idev >=? 0 then idev else 0)).
+  { destruct (Z.geb_spec idev 0); [apply vi_range; split; [lia|]; apply Z.geb_le in Hr || (destruct (Z.geb_spec idev (dev_count n)); [discriminate|lia])|apply vi_zero; apply Hk]. }
+  assert (Hsrc: (if idev >=? 0 then d_src (get_dev (shift_node c n) idev) else m_src m) = (if idev >=? 0 then d_src (get_dev n idev) else m_src m)).
+  { destruct (Z.geb_spec idev 0); [|reflexivity]. rewrite get_dev_sh; [reflexivity|]. destruct (Z.geb_spec idev 0); [exact Hv|lia]. }
+  rewrite Hsrc.
+  destruct (_ && negb (m_pgn m =? c_N2kPGNIsoAddressClaim)); [split; [reflexivity|exact Hk]|].
+  destruct (to_can_id _ _ _ _ =? 0); [split; [reflexivity|exact Hk]|].
+  destruct (n_mode n =? 0); [split; [reflexivity|exact Hk]|].
+  destruct (m_pgn m =? 0); [split; [reflexivity|exact Hk]|].
+  destruct (claim_started_sh c n _ Hc Hk Hv) as [E K]. rewrite E.
+  destruct (claim_started n (if idev >=? 0 then idev else 0)) as [n1 cl]. cbn [fst snd] in *.
+  destruct (cl && negb (m_pgn m =? c_N2kPGNIsoAddressClaim)); split; try reflexivity; exact K.
+Qed.
+
+(* facts about the gate's result that later steps need *)
+Lemma send_gate_vi n m idev n1 m' i id : (0 < length (n_devs n))%nat -> send_gate n m idev = (n1, Some (m', i, id)) -> vi n1 i /\ vi n i.
+Proof.
+  intros HL H. pose proof (send_gate_st' _ _ _ _ _ H) as S.
+  unfold send_gate in H.
+  destruct (negb (n_open n =? 3)); [discriminate|].
+  destruct (Z.geb_spec idev (dev_count n)); [discriminate|].
+  destruct (_ && negb (m_pgn m =? c_N2kPGNIsoAddressClaim)); [discriminate|].
+  destruct (to_can_id _ _ _ _ =? 0); [discriminate|].
+  destruct (n_mode n =? 0); [discriminate|]. destruct (m_pgn m =? 0); [discriminate|].
+  destruct (claim_started n _) as [n1' cl]. destruct (cl && _); [discriminate|]. injection H as <- _ <- _.
+  assert (vi n (if idev >=? 0 then idev else 0)).
+  { destruct (Z.geb_spec idev 0); [apply vi_range; lia|apply vi_zero; exact HL]. }
+  split; [eapply vi_static; eassumption|assumption].
+Qed.
+
+(* ---------- SendMsg without ISO-TP ---------- *)
+Lemma is_fast_packet_sh c n m : is_fast_packet (shift_node c n) m = is_fast_packet n m.  Proof. reflexivity. Qed.
+Lemma send_msg0_sh c n m idev : 0 <= c -> nok c n ->
+  send_msg0 (shift_node c n) m idev = lift3 c (send_msg0 n m idev) /\ nok c (fst (fst (send_msg0 n m idev))).
+Proof.
+  intros Hc Hk. unfold send_msg0, lift3.
+  destruct (send_gate_sh c n m idev Hc Hk) as [E K]. rewrite E. unfold lift2.
+  destruct (send_gate n m idev) as [n1 [[[m' i] id]|]] eqn:EG; cbn [fst snd] in *; [|split; [reflexivity|exact K]].
+  destruct (send_gate_vi _ _ _ _ _ _ _ (nk_len _ _ Hk) EG) as [V1 _].
+  rewrite is_fast_packet_sh.
+  destruct ((m_len m' <=? 8) && negb (is_fast_packet n1 m')).
+  - rewrite shn_q, shn_drv. destruct (send_frame _ _ _ _ _ _) as [[[q d] ev] ok]. cbn [fst snd].
+    split; [reflexivity|apply nok_upd_q; exact K].
+  - destruct (gsc_sh c n1 i (m_pgn m') Hc K V1) as [E2 K2]. rewrite E2. unfold lift2.
+    destruct (get_sequence_counter n1 i (m_pgn m')) as [n2 sc]. cbn [fst snd] in *.
+    rewrite shn_q, shn_drv. destruct (send_all _ _ _ _) as [[[q d] ev] ok]. cbn [fst snd].
+    split; [reflexivity|apply nok_upd_q; exact K2].
+Qed.
+
+(* ---------- ISO-TP start / end ---------- *)
+Lemma end_send_tp_sh c n i : 0 <= c -> nok c n -> vi n i ->
+  end_send_tp (shift_node c n) i = shift_node c (end_send_tp n i) /\ nok c (end_send_tp n i).
+Proof.
+  intros Hc Hk Hv. pose proof (nok_get_dev c n i Hk Hv) as (T1 & T2 & T3).
+  unfold end_send_tp. rewrite get_dev_sh by exact Hv. rewrite shn_w64. split.
+  - rewrite <- upd_dev_sh; repeat (f_equal; try reflexivity); devrec.
+  - apply nok_upd_dev; [exact Hk|]. unfold dev_ok, set_tp. cbn [d_claim_timer d_next_dt_time d_src]. rewrite (nk_w64 _ _ Hk), dis64.
+    repeat split; try assumption; try apply tbc_dis; lia.
+Qed.
+
+Lemma start_send_tp_sh c n m i : 0 <= c -> nok c n ->
+  start_send_tp (shift_node c n) m i = lift3 c (start_send_tp n m i) /\ nok c (fst (fst (start_send_tp n m i))).
+Proof.
+  intros Hc Hk. unfold start_send_tp, lift3. rewrite shn_count.
+  destruct ((0 <=? i) && (i <? dev_count n)) eqn:Hr; cbn [negb]; [|split; [reflexivity|exact Hk]].
+  assert (Hv: vi n i) by (apply vi_range; apply andb_true_iff in Hr; destruct Hr as [H1 H2]; apply Z.leb_le in H1; apply Z.ltb_lt in H2; lia).
+  pose proof (nok_get_dev c n i Hk Hv) as (T1 & T2 & T3).
+  rewrite get_dev_sh by exact Hv. cbn [shift_dev d_tp_msg d_src].
+  destruct (d_tp_msg (get_dev n i)); [split; [reflexivity|exact Hk]|].
+  rewrite shn_w64, shn_now, (nk_w64 _ _ Hk).
+  destruct (nk_now _ _ Hk) as [N1 N2].
+  destruct (from_now_sh c (n_now n) 50 Hc N1 N2 ltac:(change (2^32) with 4294967296; lia)) as [F1 F2]. rewrite F1.
+  set (d1 := set_tp (get_dev n i) true (Some m) (sched_from_now true (n_now n) 50) 0 true).
+  assert (D1: set_tp (shift_dev c (get_dev n i)) true (Some m) (sh64 c (sched_from_now true (n_now n) 50)) 0 true = shift_dev c d1) by (unfold d1; devrec).
+  rewrite D1, upd_dev_sh.
+  assert (K1: nok c (upd_dev n i d1)).
+  { apply nok_upd_dev; [exact Hk|]. unfold dev_ok, d1, set_tp. cbn [d_claim_timer d_next_dt_time d_src]. repeat split; assumption || lia. }
+  assert (V1: vi (upd_dev n i d1) i) by (apply vi_upd_dev; exact Hv).
+  rewrite shn_active.
+  destruct (is_active_node (upd_dev n i d1)); cbn [negb].
+  - destruct (send_msg0_sh c (upd_dev n i d1) (tpcm_start (if m_dst m =? 255 then c_TP_CM_BAM else c_TP_CM_RTS) (d_src (get_dev n i)) (m_dst m) m) i Hc K1) as [E K].
+    rewrite E. unfold lift3.
+    pose proof (send_msg0_st (upd_dev n i d1) (tpcm_start (if m_dst m =? 255 then c_TP_CM_BAM else c_TP_CM_RTS) (d_src (get_dev n i)) (m_dst m) m) i) as S.
+    destruct (send_msg0 (upd_dev n i d1) _ i) as [[n2 ev] ok]. cbn [fst snd] in *.
+    destruct ok; [split; [reflexivity|exact K]|].
+    destruct (end_send_tp_sh c n2 i Hc K (vi_static _ _ _ S V1)) as [E3 K3]. rewrite E3. split; [reflexivity|exact K3].
+  - destruct (end_send_tp_sh c (upd_dev n i d1) i Hc K1 V1) as [E3 K3]. rewrite E3. split; [reflexivity|exact K3].
+Qed.
+
+(* ---------- SendMsg ---------- *)
+Lemma send_msg_sh c n m idev : 0 <= c -> nok c n ->
+  send_msg (shift_node c n) m idev = lift3 c (send_msg n m idev) /\ nok c (fst (fst (send_msg n m idev))).
+Proof.
+  intros Hc Hk. unfold send_msg.
+  destruct (send_gate_sh c n m idev Hc Hk) as [E K]. rewrite E. unfold lift2.
+  destruct (send_gate n m idev) as [n1 [[[m' i] id]|]] eqn:EG; cbn [fst snd] in *; [|split; [reflexivity|exact K]].
+  rewrite is_fast_packet_sh.
+  destruct (negb ((m_len m' <=? 8) && negb (is_fast_packet n1 m')) && m_tp m').
+  - apply start_send_tp_sh; assumption.
+  - apply send_msg0_sh; assumption.
+Qed.
+
+(* ---------- address claim start ---------- *)
+Lemma send_iso_address_claim_sh c n dst i : 0 <= c -> nok c n ->
+  send_iso_address_claim (shift_node c n) dst i = lift2 c (send_iso_address_claim n dst i) /\ nok c (fst (send_iso_address_claim n dst i)).
+Proof.
+  intros Hc Hk. unfold send_iso_address_claim, lift2. rewrite shn_count.
+  set (i' := if (dst =? 255) && (i =? -1) then 0 else i).
+  destruct ((i' <? 0) || (i' >=? dev_count n)) eqn:Hr; [split; [reflexivity|exact Hk]|].
+  assert (Hv: vi n i').
+  { apply vi_range. apply orb_false_iff in Hr. destruct Hr as [H1 H2]. apply Z.ltb_ge in H1.
+    destruct (Z.geb_spec i' (dev_count n)); [discriminate|lia]. }
+  rewrite get_dev_sh by exact Hv.
+  assert (Hm: claim_msg (shift_dev c (get_dev n i')) dst = claim_msg (get_dev n i') dst) by reflexivity.
+  rewrite Hm.
+  destruct (send_msg_sh c n (claim_msg (get_dev n i') dst) i' Hc Hk) as [E K]. rewrite E. unfold lift3.
+  destruct (send_msg n (claim_msg (get_dev n i') dst) i') as [[n1 ev] ok]. cbn [fst snd] in *. split; [reflexivity|exact K].
+Qed.
+
+Lemma set_claim_timer_sh c n i t : 0 <= c -> nok c n -> vi n i -> tbc c t ->
+  set_claim_timer (shift_node c n) i (sh64 c t) = shift_node c (set_claim_timer n i t) /\ nok c (set_claim_timer n i t).
+Proof.
+  intros Hc Hk Hv Ht. pose proof (nok_get_dev c n i Hk Hv) as (T1 & T2 & T3).
+  unfold set_claim_timer. rewrite get_dev_sh by exact Hv. split.
+  - rewrite <- upd_dev_sh; repeat (f_equal; try reflexivity).
+  - apply nok_upd_dev; [exact Hk|]. unfold dev_ok. cbn [d_claim_timer d_next_dt_time d_src]. repeat split; assumption || lia.
+Qed.
+
+Lemma set_claim_timer_st' n i t : nstatic n (set_claim_timer n i t).  Proof. apply set_claim_timer_st. Qed.
+
+Lemma start_address_claim_sh c n i : 0 <= c -> nok c n -> vi n i ->
+  start_address_claim (shift_node c n) i = lift2 c (start_address_claim n i) /\ nok c (fst (start_address_claim n i)).
+Proof.
+  intros Hc Hk Hv. unfold start_address_claim, lift2. rewrite shn_ready.
+  destruct (is_ready_to_send n); [|split; [reflexivity|exact Hk]].
+  rewrite shn_w64, (nk_w64 _ _ Hk).
+  destruct (set_claim_timer_sh c n i (sched_disabled true) Hc Hk Hv (tbc_dis c)) as [E1 K1].
+  rewrite dis64 in *. rewrite sh64_dis in E1. rewrite E1.
+  pose proof (set_claim_timer_st n i SENT64) as S1.
+  destruct (send_iso_address_claim_sh c (set_claim_timer n i SENT64) 255 i Hc K1) as [E2 K2]. rewrite E2. unfold lift2.
+  pose proof (send_iso_address_claim_st (set_claim_timer n i SENT64) 255 i) as S2.
+  destruct (send_iso_address_claim (set_claim_timer n i SENT64) 255 i) as [n2 ev]. cbn [fst snd] in *.
+  rewrite shn_w64, shn_now, (nk_w64 _ _ K2).
+  destruct (nk_now _ _ K2) as [N1 N2].
+  destruct (from_now_sh c (n_now n2) c_N2kAddressClaimTimeout Hc N1 N2 ltac:(unfold c_N2kAddressClaimTimeout; change (2^32) with 4294967296; lia)) as [F1 F2].
+  rewrite F1.
+  assert (V2: vi n2 i) by (eapply vi_static; [eapply nstatic_trans; eassumption|exact Hv]).
+  destruct (set_claim_timer_sh c n2 i _ Hc K2 V2 F2) as [E3 K3]. rewrite E3. split; [reflexivity|exact K3].
+Qed.
+
+(* ---------- the operations of part 1 ---------- *)
+Lemma nok_set_now c n t : nok c n -> 0 < t -> t + c < NB -> nok c (set_now n t).
+Proof. intros [H1 H2 H3 H4] A B. constructor; cbn [set_now n_w64 n_now n_devs]; try assumption. split; assumption. Qed.
+
+Lemma step_sh c n o : 0 <= c -> nok c n ->
+  match o with OTick dt => 0 <= dt /\ n_now n + dt + c < NB | _ => True end ->
+  step (shift_node c n) o = lift2 c (step n o) /\ nok c (fst (step n o)).
+Proof.
+  intros Hc Hk Ho. destruct o as [dt|p|i m|?|i]; cbn [step]; unfold lift2.
+  - cbn [fst snd]. split.
+    + unfold set_now, shift_node. cbn. f_equal. f_equal. lia.
+    + destruct (nk_now _ _ Hk). apply nok_set_now; [exact Hk|lia|lia].
+  - cbn [fst snd]. split; [reflexivity|apply nok_upd_q; exact Hk].
+  - destruct (send_msg_sh c n m i Hc Hk) as [E K]. rewrite E. unfold lift3.
+    destruct (send_msg n m i) as [[n1 ev] r]. cbn [fst snd] in *. split; [reflexivity|exact K].
+  - rewrite shn_q, shn_drv. destruct (flush (n_q n) (n_drv n)) as [[[q d] ev] b]. cbn [fst snd].
+    split; [reflexivity|apply nok_upd_q; exact Hk].
+  - rewrite shn_count. destruct ((0 <=? i) && (i <? dev_count n)) eqn:Hr; [|split; [reflexivity|exact Hk]].
+    apply start_address_claim_sh; try assumption.
+    apply vi_range. apply andb_true_iff in Hr. destruct Hr as [H1 H2]. apply Z.leb_le in H1. apply Z.ltb_lt in H2. lia.
 Qed.
